@@ -4,6 +4,7 @@ mod c18;
 mod c20;
 mod data;
 mod env;
+mod partdrop;
 mod query;
 mod scripted;
 
